@@ -24,6 +24,9 @@ type Failure struct {
 
 	Run     int    `json:"-"`
 	Variant string `json:"-"`
+	// ProcStart is the first unit of the worker process that observed the failure: the units
+	// ProcStart..Run, executed in that order by one fresh process, are the failure's process history.
+	ProcStart int `json:"-"`
 }
 
 // Key identifies a violation class for de-duplication and known-findings matching.
@@ -342,6 +345,9 @@ func (e *Env) runBlock(o FanOpts, agg *Agg, start, count int) (int, error) {
 		case "begin":
 			inProgress = u.Run
 		case "end":
+			for _, f := range u.Fails {
+				f.ProcStart = start
+			}
 			agg.add(&u, o.Variant)
 			inProgress = -1
 			completed++
@@ -408,6 +414,22 @@ type ReplayResult struct {
 func (e *Env) RunReplay(variant, prop, file string, wall time.Duration, env []string, extra ...string) *ReplayResult {
 	args := append(e.workerArgs(prop, "replay"), "-file", file, "-variant", variant)
 	args = append(args, extra...)
+	return e.runCollect(variant, args, wall, env)
+}
+
+// RunRange executes units [start, start+count) in one fresh worker process, exactly as the
+// fan-out does, and collects the failures: the replay of a failure that depends on what the
+// process did before (the worker is a deterministic function of seed, tier and unit range).
+func (e *Env) RunRange(variant, prop string, start, count int, wall time.Duration, env []string, extra ...string) *ReplayResult {
+	args := append(e.workerArgs(prop, "run"), "-start", fmt.Sprint(start), "-count", fmt.Sprint(count), "-variant", variant)
+	args = append(args, extra...)
+	if wall == 0 {
+		wall = 15 * time.Minute
+	}
+	return e.runCollect(variant, args, wall, env)
+}
+
+func (e *Env) runCollect(variant string, args []string, wall time.Duration, env []string) *ReplayResult {
 	cmd := exec.Command(e.Bin(variant), args...)
 	cmd.Env = append(os.Environ(), env...)
 	cmd.SysProcAttr = &syscall.SysProcAttr{Setpgid: true}
@@ -458,6 +480,9 @@ func (e *Env) RunReplay(variant, prop, file string, wall time.Duration, env []st
 			continue
 		}
 		if u.Ev == "end" {
+			for _, f := range u.Fails {
+				f.Run = u.Run
+			}
 			res.Fails = append(res.Fails, u.Fails...)
 		}
 		if u.Ev == "trouble" {
